@@ -15,6 +15,7 @@ import (
 	gatewayv1beta1 "sigs.k8s.io/gateway-api/apis/v1beta1"
 
 	ngfAPI "github.com/nginx/nginx-gateway-fabric/apis/v1alpha1"
+	ngfAPIv2 "github.com/nginx/nginx-gateway-fabric/apis/v1alpha2"
 	p "github.com/nginx/nginx-gateway-fabric/verifharness/pipeline"
 	"github.com/nginx/nginx-gateway-fabric/verifharness/rng"
 	"github.com/nginx/nginx-gateway-fabric/verifharness/scen"
@@ -60,6 +61,23 @@ func mutate(r *rng.R, obj client.Object, namespaces []string) (client.Object, st
 			return x, "svc-add-port"
 		}
 		i := r.Intn(len(x.Spec.Ports))
+		if r.Chance(18, 100) {
+			// same port number for a second protocol (53/TCP + 53/UDP): fewer distinct (port,targetPort) pairs than entries
+			dup := x.Spec.Ports[i]
+			dup.Name, dup.Protocol = dup.Name+"-udp", apiv1.ProtocolUDP
+			if len(x.Spec.Ports) > 1 && r.Bool() {
+				x.Spec.Ports[(i+1)%len(x.Spec.Ports)] = dup // replaces another entry: count unchanged
+				return x, "svc-replace-by-dup-port"
+			}
+			x.Spec.Ports = append(x.Spec.Ports, dup)
+			return x, "svc-add-dup-port"
+		}
+		if len(x.Spec.Ports) > 1 && r.Chance(18, 100) {
+			// replace one entry by a port routes may be waiting for, keeping the count
+			np := rng.Pick(r, []int32{80, 8080, 81, 9000})
+			x.Spec.Ports[i] = apiv1.ServicePort{Name: fmt.Sprintf("p%d", np), Port: np, TargetPort: intstr.FromInt32(np + 8000), Protocol: apiv1.ProtocolTCP}
+			return x, "svc-replace-port"
+		}
 		switch r.Intn(9) {
 		case 0:
 			x.Spec.Ports[i].Port = rng.Pick(r, []int32{80, 81, 8080})
@@ -325,6 +343,37 @@ func mutate(r *rng.R, obj client.Object, namespaces []string) (client.Object, st
 		}
 		x.Spec.TargetRef.Name = gatewayv1.ObjectName(rng.Pick(r, []string{"gw0", "gw1"}))
 		return x, "csp-target"
+	case *ngfAPIv2.ObservabilityPolicy:
+		routes := []string{"hr0", "hr1", "hr2", "hr3", "hr-absent", "hr-absent2"}
+		switch r.Intn(3) {
+		case 0:
+			rng.Shuffle(r, x.Spec.TargetRefs)
+			return x, "obs-targets-shuffled"
+		case 1:
+			if len(x.Spec.TargetRefs) > 0 {
+				x.Spec.TargetRefs[r.Intn(len(x.Spec.TargetRefs))].Name = gatewayv1.ObjectName(rng.Pick(r, routes))
+				return x, "obs-target-moved"
+			}
+		default:
+			x.Spec.Tracing = &ngfAPIv2.Tracing{Strategy: ngfAPIv2.TraceStrategyRatio, Ratio: ptr(int32(r.Range(1, 50)))}
+			return x, "obs-ratio"
+		}
+		return nil, ""
+	case *ngfAPI.UpstreamSettingsPolicy:
+		switch r.Intn(3) {
+		case 0:
+			rng.Shuffle(r, x.Spec.TargetRefs)
+			return x, "usp-targets-shuffled"
+		case 1:
+			if len(x.Spec.TargetRefs) > 0 {
+				x.Spec.TargetRefs[r.Intn(len(x.Spec.TargetRefs))].Name = gatewayv1.ObjectName(rng.Pick(r, []string{"svc0", "svc1", "svc2", "svc-absent"}))
+				return x, "usp-target-moved"
+			}
+		default:
+			x.Spec.ZoneSize = ptr(ngfAPI.Size(rng.Pick(r, []string{"1m", "2m", "512k"})))
+			return x, "usp-zone"
+		}
+		return nil, ""
 	case *ngfAPI.NginxProxy:
 		if r.Bool() {
 			x.Spec.IPFamily = ptr(rng.Pick(r, []ngfAPI.IPFamilyType{ngfAPI.Dual, ngfAPI.IPv4, ngfAPI.IPv6}))
@@ -363,9 +412,40 @@ func Generate(r *rng.R, maxOps int) *History {
 	if r.Chance(40, 100) {
 		usp := &ngfAPI.UpstreamSettingsPolicy{ObjectMeta: p.Meta("default", "usp", 50)}
 		usp.Spec.TargetRefs = []gatewayv1alpha2.LocalPolicyTargetReference{{Kind: "Service", Name: "svc0"}}
+		if r.Bool() {
+			// several targets, in either order: absent first / present first
+			extra := gatewayv1alpha2.LocalPolicyTargetReference{Kind: "Service", Name: gatewayv1.ObjectName(rng.Pick(r, []string{"svc-absent", "svc1", "svc2"}))}
+			if r.Bool() {
+				usp.Spec.TargetRefs = append(usp.Spec.TargetRefs, extra)
+			} else {
+				usp.Spec.TargetRefs = append([]gatewayv1alpha2.LocalPolicyTargetReference{extra}, usp.Spec.TargetRefs...)
+			}
+			h.Tags["usp-multitarget"]++
+		}
 		usp.Spec.ZoneSize = ptr(ngfAPI.Size("1m"))
 		objs = append(objs, usp)
 		h.Tags["usp"]++
+	}
+	if r.Chance(45, 100) {
+		// ObservabilityPolicy with several route targets, some absent, in either order
+		op := &ngfAPIv2.ObservabilityPolicy{ObjectMeta: p.Meta(rng.Pick(r, cfg.Namespaces), "obs", 51)}
+		op.Spec.Tracing = &ngfAPIv2.Tracing{Strategy: ngfAPIv2.TraceStrategyRatio, Ratio: ptr(int32(10))}
+		names := []string{"hr-absent", rng.Pick(r, []string{"hr0", "hr1", "hr2"})}
+		if r.Chance(40, 100) {
+			names = append(names, rng.Pick(r, []string{"hr-absent2", "hr3", "hr1"}))
+		}
+		rng.Shuffle(r, names)
+		seen := map[string]bool{}
+		for _, n := range names {
+			if seen[n] {
+				continue
+			}
+			seen[n] = true
+			op.Spec.TargetRefs = append(op.Spec.TargetRefs, gatewayv1alpha2.LocalPolicyTargetReference{
+				Group: "gateway.networking.k8s.io", Kind: "HTTPRoute", Name: gatewayv1.ObjectName(n)})
+		}
+		objs = append(objs, op)
+		h.Tags["obs-multitarget"]++
 	}
 
 	// split: some objects exist before the controller starts, the others are created by the history
@@ -377,6 +457,8 @@ func Generate(r *rng.R, maxOps int) *History {
 			keep = 95
 		case "EndpointSlice", "Service", "ReferenceGrant", "Secret":
 			keep = 65
+		case "ObservabilityPolicy", "UpstreamSettingsPolicy", "ClientSettingsPolicy":
+			keep = 40 // mostly upserted after the graph with their targets exists
 		}
 		if r.Chance(keep, 100) {
 			h.Init = append(h.Init, o)
@@ -393,7 +475,7 @@ func Generate(r *rng.R, maxOps int) *History {
 	weights := map[string]int{
 		"EndpointSlice": 6, "Service": 5, "Secret": 3, "ReferenceGrant": 3, "Namespace": 3, "GatewayClass": 3,
 		"Gateway": 3, "HTTPRoute": 4, "GRPCRoute": 2, "TLSRoute": 2, "BackendTLSPolicy": 2, "ConfigMap": 2,
-		"ClientSettingsPolicy": 4, "UpstreamSettingsPolicy": 3, "NginxProxy": 2,
+		"ClientSettingsPolicy": 4, "UpstreamSettingsPolicy": 3, "ObservabilityPolicy": 4, "NginxProxy": 2,
 	}
 	pickPresent := func() client.Object {
 		var keys []p.Key
